@@ -291,45 +291,154 @@ def r4_recursion(ctx):
 
 
 # --------------------------------------------------------------------------- R5
-def _closure_of(node, f):
-    """If `node` is the descendant closure of a set X (union over X of nodes(c) | {c}), return src(X)."""
-    # accepted: set.union(*[cls.nodes(c) | {c} for c in X]) [if len(X) > 0 else X]
+def _set_terms(node, bound):
+    """Set algebra normal form: the set of generator terms a set-valued expression is the union of -
+    ('elem', X): the members of X;  ('nodes', X): the descendants nodes(c) of every member c of X.
+    `bound` maps a comprehension variable to the source text of the collection it ranges over.  None: not recognised."""
+    if isinstance(node, ast.Set):
+        out = set()
+        for e in node.elts:
+            if isinstance(e, ast.Name) and e.id in bound:
+                out.add(_single(('elem', bound[e.id])))
+            elif isinstance(e, (ast.Name, ast.Attribute)):
+                out.add(('one', src(e)))
+            else:
+                return None
+        return out
+    if isinstance(node, ast.Call) and isinstance(node.func, ast.Name) and node.func.id in ('set', 'frozenset', 'list', 'tuple'):
+        if not node.args and not node.keywords:
+            return set()
+        if len(node.args) == 1 and not node.keywords:
+            a = node.args[0]
+            if isinstance(a, (ast.List, ast.Tuple, ast.Set)):
+                return _set_terms(ast.Set(elts=a.elts), bound)
+            inner = _set_terms(a, bound)
+            return inner if inner is not None else {('elem', src(a))}
+    if isinstance(node, ast.Call) and src(node.func) in ('cls.nodes', 'TokenCategoryHierarchyMapper.nodes', 'self.nodes') and not (node.args and node.keywords):
+        a = node.args[0] if node.args else (node.keywords[0].value if node.keywords and node.keywords[0].arg == 'parent' else None)
+        if isinstance(a, ast.Name) and a.id in bound:
+            return {_single(('nodes', bound[a.id]))}
+        if isinstance(a, (ast.Name, ast.Attribute)):
+            return {('nodes1', src(a))}
+        return None
+    if isinstance(node, ast.BinOp) and isinstance(node.op, ast.BitOr):
+        l, r = _set_terms(node.left, bound), _set_terms(node.right, bound)
+        return l | r if l is not None and r is not None else None
+    if isinstance(node, ast.Call) and isinstance(node.func, ast.Attribute) and node.func.attr == 'union':
+        recv = node.func.value
+        parts = [] if src(recv) in ('set', 'frozenset') else [recv]
+        out = set()
+        for a in list(node.args):
+            if isinstance(a, ast.Starred):
+                t = _union_over(a.value, bound)
+                if t is None:
+                    return None
+                out |= t
+            else:
+                parts.append(a)
+        if node.keywords:
+            return None
+        for p_ in parts:
+            t = _set_terms(p_, bound)
+            if t is None:
+                return None
+            out |= t
+        return out
+    if isinstance(node, ast.SetComp) and len(node.generators) == 2 and not node.generators[0].ifs and not node.generators[1].ifs \
+            and isinstance(node.generators[0].target, ast.Name) and isinstance(node.generators[1].target, ast.Name) \
+            and F.is_name(node.elt, node.generators[1].target.id):
+        b2 = dict(bound, **{node.generators[0].target.id: src(node.generators[0].iter)})
+        return _set_terms(node.generators[1].iter, b2)
+    if isinstance(node, ast.SetComp) and len(node.generators) == 1 and not node.generators[0].ifs \
+            and isinstance(node.generators[0].target, ast.Name) and F.is_name(node.elt, node.generators[0].target.id):
+        return {('elem', src(node.generators[0].iter))}
     if isinstance(node, ast.IfExp):
-        a = _closure_of(node.body, f)
-        t = src(node.test)
-        if a is not None and src(node.orelse) in (a, 'set()') and t in (f'len({a}) > 0', a, f'len({a}) != 0', f'len({a}) >= 1'):
-            return a
-        b = _closure_of(node.orelse, f)
-        if b is not None and src(node.body) in (b, 'set()') and t in (f'len({b}) == 0', f'not {b}'):
-            return b
+        # T if X is not empty else X / set(): the union over an empty X is empty
+        for body, other, tests in ((node.body, node.orelse, lambda a: (f'len({a}) > 0', a, f'len({a}) != 0', f'len({a}) >= 1')),
+                                   (node.orelse, node.body, lambda a: (f'len({a}) == 0', f'not {a}'))):
+            t = _set_terms(body, bound)
+            if t:
+                xs = {x for _, x in t}
+                if len(xs) == 1:
+                    a = next(iter(xs))
+                    if src(other) in (a, 'set()', f'set({a})') and src(node.test) in tests(a):
+                        return t
         return None
-    comp = None
-    if isinstance(node, ast.Call) and src(node.func) in ('set.union', 'set().union', 'frozenset().union') and len(node.args) == 1 \
-            and isinstance(node.args[0], ast.Starred):
-        comp = node.args[0].value
-        if isinstance(comp, (ast.ListComp, ast.GeneratorExp, ast.SetComp)) and len(comp.generators) == 1 \
-                and not comp.generators[0].ifs and isinstance(comp.generators[0].target, ast.Name):
-            v = comp.generators[0].target.id
-            if _is_node_plus_self(comp.elt, v):
-                return src(comp.generators[0].iter)
-        return None
-    if isinstance(node, ast.SetComp) and len(node.generators) == 2 and not node.generators[0].ifs \
-            and not node.generators[1].ifs and isinstance(node.generators[0].target, ast.Name) \
-            and isinstance(node.generators[1].target, ast.Name) and F.is_name(node.elt, node.generators[1].target.id):
-        v = node.generators[0].target.id
-        if _is_node_plus_self(node.generators[1].iter, v):
-            return src(node.generators[0].iter)
+    if isinstance(node, (ast.Name, ast.Attribute, ast.Call)) and not bound:
+        return {('elem', src(node))}
     return None
 
 
-def _is_node_plus_self(e, v):
-    if isinstance(e, ast.BinOp) and isinstance(e.op, ast.BitOr):
-        s = {src(e.left), src(e.right)}
-        return s in ({f'cls.nodes({v})', f'{{{v}}}'}, {f'cls.nodes(parent={v})', f'{{{v}}}'})
-    if isinstance(e, ast.Call) and isinstance(e.func, ast.Attribute) and e.func.attr == 'union' and len(e.args) == 1:
-        s = {src(e.func.value), src(e.args[0])}
-        return s == {f'cls.nodes({v})', f'{{{v}}}'}
-    return False
+def _single(term):
+    """A term over the one-member collection `{x}` is the term of its member."""
+    kind, x = term
+    try:
+        n = ast.parse(x, mode='eval').body
+    except SyntaxError:
+        return term
+    if isinstance(n, ast.Set) and len(n.elts) == 1 and isinstance(n.elts[0], (ast.Name, ast.Attribute)):
+        return ({'elem': 'one', 'nodes': 'nodes1'}[kind], src(n.elts[0]))
+    return term
+
+
+def _nonempty_meet(node):
+    """(A, B) when the boolean expression says that the sets A and B have a member in common."""
+    def meet(x):
+        if isinstance(x, ast.BinOp) and isinstance(x.op, ast.BitAnd):
+            return x.left, x.right
+        if isinstance(x, ast.Call) and isinstance(x.func, ast.Attribute) and x.func.attr == 'intersection' and len(x.args) == 1 and not x.keywords:
+            return x.func.value, x.args[0]
+        return None
+    if isinstance(node, ast.Compare) and len(node.ops) == 1 and isinstance(node.left, ast.Call) and F.is_name(node.left.func, 'len') \
+            and len(node.left.args) == 1 and isinstance(node.comparators[0], ast.Constant):
+        k, op = node.comparators[0].value, node.ops[0]
+        if (isinstance(op, ast.Gt) and k == 0) or (isinstance(op, ast.NotEq) and k == 0) or (isinstance(op, ast.GtE) and k == 1):
+            return meet(node.left.args[0])
+        if meet(node.left.args[0]) is not None:
+            return 'other-size-test'        # a size test of the common members that is not "at least one"
+    if isinstance(node, ast.Compare) and len(node.ops) == 1 and isinstance(node.comparators[0], ast.Call) and F.is_name(node.comparators[0].func, 'len') \
+            and isinstance(node.left, ast.Constant) and ((isinstance(node.ops[0], ast.Lt) and node.left.value == 0)
+                                                          or (isinstance(node.ops[0], ast.LtE) and node.left.value == 1)):
+        return meet(node.comparators[0].args[0])
+    if isinstance(node, ast.Call) and F.is_name(node.func, 'bool') and len(node.args) == 1:
+        return meet(node.args[0])
+    if isinstance(node, ast.UnaryOp) and isinstance(node.op, ast.Not) and isinstance(node.operand, ast.Call) \
+            and isinstance(node.operand.func, ast.Attribute) and node.operand.func.attr == 'isdisjoint' and len(node.operand.args) == 1:
+        return node.operand.func.value, node.operand.args[0]
+    if isinstance(node, ast.Call) and F.is_name(node.func, 'any') and len(node.args) == 1 \
+            and isinstance(node.args[0], (ast.GeneratorExp, ast.ListComp)) and len(node.args[0].generators) == 1:
+        g = node.args[0].generators[0]
+        e = node.args[0].elt
+        if not g.ifs and isinstance(g.target, ast.Name) and isinstance(e, ast.Compare) and len(e.ops) == 1 and isinstance(e.ops[0], ast.In) \
+                and F.is_name(e.left, g.target.id):
+            return g.iter, e.comparators[0]
+    return None
+
+
+def _union_over(node, bound):
+    """Terms of `*node` given to union(): a comprehension / generator / map over a collection X."""
+    if isinstance(node, (ast.ListComp, ast.GeneratorExp, ast.SetComp)) and len(node.generators) == 1 and not node.generators[0].ifs \
+            and isinstance(node.generators[0].target, ast.Name):
+        return _set_terms(node.elt, dict(bound, **{node.generators[0].target.id: src(node.generators[0].iter)}))
+    if isinstance(node, ast.Call) and F.is_name(node.func, 'map') and len(node.args) == 2 and not node.keywords:
+        fn, coll = node.args
+        if isinstance(fn, ast.Lambda) and len(fn.args.args) == 1:
+            return _set_terms(fn.body, dict(bound, **{fn.args.args[0].arg: src(coll)}))
+        call = ast.Call(func=fn, args=[ast.Name(id='_m', ctx=ast.Load())], keywords=[])
+        return _set_terms(call, dict(bound, _m=src(coll)))
+    return None
+
+
+def _closure_of(node, f):
+    """(X, recognised): X when `node` is the descendant closure of the collection X - the members of X together with nodes(c)
+    of every member c, however the union is written; recognised tells whether the set algebra followed the expression."""
+    t = _set_terms(node, {})
+    if t is None:
+        return None, False
+    xs = {x for _, x in t}
+    if len(xs) == 1 and t == {('elem', next(iter(xs))), ('nodes', next(iter(xs)))}:
+        return next(iter(xs)), True
+    return None, True
 
 
 def _validator_table(ctx, f, none_value):
@@ -377,9 +486,11 @@ def r5_selection(ctx):
         want_b = {f'cls._validate_exclude({exc_p})', f'cls._validate_exclude(exclude={exc_p})'}
 
         def is_closure(X, want):
-            c = _closure_of(X, valid)
+            c, recognised = _closure_of(X, valid)
             if c in want:
                 return True, c
+            if not recognised and not (src(X) in want or src(X) in ('set()', 'frozenset()')):
+                raise AnalysisError(f'{at}: the set algebra does not follow `{src(X)[:100]}`')
             # the closure of the empty set is the empty set: X itself (or set()) on a path where X is known to be empty
             sx = src(X)
             if sx in want or sx in ('set()', 'frozenset()'):
@@ -439,6 +550,17 @@ def r5_selection(ctx):
     rets = symex.returns(m)
     okm = False
     if len(rets) == 1:
+        ab = _nonempty_meet(rets[0][1])
+        if ab is None:
+            raise AnalysisError(f'{m.loc}: `{src(rets[0][1])[:100]}` is not recognised as "two sets have a member in common"')
+        want_t = {('one', cat), ('nodes1', cat)}
+        for a_, b_ in ((ab, ab[::-1]) if ab != 'other-size-test' else ()):
+            if src(b_) in ('cls.valid(include, exclude)', 'cls.valid(include=include, exclude=exclude)'):
+                t_ = _set_terms(a_, {})
+                if t_ is None:
+                    raise AnalysisError(f'{m.loc}: the set algebra does not follow `{src(a_)[:100]}`')
+                okm = okm or t_ == want_t
+    if False:
         s = src(rets[0][1])
         tn = {f'cls.nodes({cat}) | {{{cat}}}', f'{{{cat}}} | cls.nodes({cat})'}
         vv = 'cls.valid(include, exclude)'
